@@ -141,6 +141,8 @@ func (s *Statement) commitEvict(reclaimee *pod_info.PodInfo, evictOp evictOperat
 		return err
 	}
 	reclaimee.IsVirtualStatus = false
+	// a virtually evicted task counts as a task to allocate, a really evicted one does not
+	reclaimeePodGroup.InvalidateTasksCache()
 
 	return nil
 }
